@@ -150,19 +150,21 @@ def layout_rewrite(ri: int, pos: int) -> None:
     hlib.done()
 
 
-STRAY = [')', ']', 'stray', '=>', '}', '1.5', ':']
+STRAY = [')', ']', 'stray', '=>', '}', '1.5', ':', '$', '"', 'for', '))', '\x00']
 
 
 def error_line(si: int, pos: int, sep: int, trunc: bool) -> None:
     """
-    pre: 0 <= si < 7 and 0 <= pos < 40 and 0 <= sep <= 2
+    pre: 0 <= si < 12 and 0 <= pos < 40 and 0 <= sep <= 2
     post: True
     """
     # a valid program made invalid by a stray token at a token boundary (or truncated there): the message names the
     # reported token's text and the physical line it stands on, whatever separators / bracketed line breaks precede it
     hlib.enter(locals())
     pi = hlib.PARAM["program"]
-    si, pos, sep = hlib.concrete(si, 0, 6), hlib.concrete(pos, 0, 39), hlib.concrete(sep, 0, 2)
+    si, pos, sep = hlib.concrete(si, 0, 11), hlib.concrete(pos, 0, 39), hlib.concrete(sep, 0, 2)
+    if not hlib.PARAM.get("class_only"):
+        hlib.assume(si < 7)
     trunc = True if trunc else False
     res = None
     with hlib.native():
@@ -195,6 +197,9 @@ def error_line(si: int, pos: int, sep: int, trunc: bool) -> None:
                 PARSER.yacc.errorfunc = orig
     hlib.assume(res is not None)
     assert res[0] != 'other', "%r: %s" % (text, res[1])
+    if hlib.PARAM.get("class_only"):
+        hlib.done()
+        return
     if res[0] == 'parser_error' and res[2] != 'none':
         tok = res[2]
         if tok is None:
